@@ -4,7 +4,7 @@ CONSTANTS
   Sizes = {202, 302, 203, 303, 402, 403, 502, 503, 404, 504, 405, 505, 602, 603, 702, 703}
   Cells = {11, 23, 32}
   Halos = {99, 0, 1, 2, 3, 5}
-  ModeSet = {202, 402, 204, 404, 602, 604, 406, 802, 302, 203, 1212, 1202, 212}
+  ModeSet = {202, 402, 204, 404, 602, 604, 406, 802, 302, 203, 303, 503, 305, 1212, 1202, 212}
   NZs = {3}
   LevelLists = "mid"
   Tabs = {1}
